@@ -373,13 +373,13 @@ pub fn run(tier: Tier) -> i32 {
         }
     }
     // ---- (b) category grammars -------------------------------------------
-    let maxlen = if tier.thorough() { 7 } else { 5 };
+    let maxlen = if tier.thorough() { 8 } else { 5 };
     let mut cat_n = 0u64;
     let mut class_counts = [0u64; 4];
     for cat_name in ALL_CATEGORIES {
         let cat = msi::Category::from_str(cat_name).expect("category");
         let alphabet = alphabet_for(cat_name);
-        let len_cap = if alphabet.len() <= 5 { maxlen.min(5) } else { maxlen };
+        let len_cap = if alphabet.len() <= 5 { maxlen.min(5) } else if alphabet.len() >= 10 { maxlen.min(7) } else { maxlen };
         let n = alphabet.len();
         let mut total = 0usize;
         for l in 0..=len_cap {
